@@ -234,7 +234,7 @@ func (w *recordWorkload) rereadAll(age string) {
 
 func runRecord(run *ev.Run, c int) {
 	w := newRecordWorkload()
-	r := rig.New(rig.Options{Seed: fmt.Sprintf("rec-%d-%d", run.Seed, c), NumAccounts: 4, Balances: sdk.NewCoins(sdk.NewInt64Coin(rig.BondDenom, 1_000_000_000)), InflationOff: true,
+	r := rig.New(rig.Options{Seed: fmt.Sprintf("rec-%d-%d", run.Seed, c), NumAccounts: 4, Balances: sdk.NewCoins(sdk.NewInt64Coin(rig.BondDenom, 1_000_000_000)), InflationOff: true, SubSecond: c%2 == 1,
 		GenesisMutator: func(cdc codec.Codec, gs map[string]json.RawMessage) {
 			// short voting period: records are also created by messages that x/gov executes in its end blocker,
 			// i.e. outside any transaction (no tx bytes), which is where byte-identical records can recur across blocks
